@@ -24,11 +24,15 @@ theorem errs_emit (ev : List (Event W)) (E : XErr → Prop) : Errs (emit ev) E :
 theorem errs_note (t : Trace) (E : XErr → Prop) : Errs (note t : Out W Unit) E := by
   intro e he; simp at he
 
-/-- what the theorems use of the decoder object -/
+/-- what the theorems use of the decoder object (nothing about the sizes handed to `decode_plane`:
+    shared by the repaired code and by `XCubeDec.old`) -/
 structure Built (d : XCubeDec W) : Prop where
   geom : Geom d
   matching_n : ∀ a, (d.matching.get a).n = (d.toric.get a).n
   H : d.H = (stabilizerMatrix (codeData d.Lx d.Ly d.Lz none)).getD []
+
+theorem built_old {d : XCubeDec W} (b : Built d) : Built d.old :=
+  ⟨⟨b.geom.qubits, b.geom.stabs, b.geom.toric, b.geom.hx, b.geom.hy, b.geom.hz⟩, b.matching_n, b.H⟩
 
 theorem new_matching_n (logOdds : Rat → W) (Lx Ly Lz : Nat) (ax : Option String) (px py pz : List Rat)
     (cfg : BpCfg) (d : XCubeDec W) (h : XCubeDec.new logOdds Lx Ly Lz ax px py pz cfg = .ok d) :
@@ -50,7 +54,7 @@ theorem new_matching_n (logOdds : Rat → W) (Lx Ly Lz : Nat) (ax : Option Strin
 theorem built_of_new (logOdds : Rat → W) (Lx Ly Lz : Nat) (px py pz : List Rat) (cfg : BpCfg)
     (hx : 1 ≤ Lx) (hy : 1 ≤ Ly) (hz : 1 ≤ Lz)
     (d : XCubeDec W) (h : XCubeDec.new logOdds Lx Ly Lz none px py pz cfg = .ok d) : Built d := by
-  obtain ⟨h1, h2, h3, hq, hs, hH, _, _, _, _, _, ht⟩ := new_ok_fields logOdds Lx Ly Lz none px py pz cfg d h
+  obtain ⟨h1, h2, h3, hq, hs, hH, _, _, _, _, _, ht, _⟩ := new_ok_fields logOdds Lx Ly Lz none px py pz cfg d h
   obtain ⟨hnx, hny, hnz⟩ := new_matching_n logOdds Lx Ly Lz none px py pz cfg d h
   refine ⟨⟨by rw [hq, h1, h2, h3], by rw [hs, h1, h2, h3], ?_, h1 ▸ hx, h2 ▸ hy, h3 ▸ hz⟩, ?_,
     by rw [hH, h1, h2, h3]⟩
@@ -199,23 +203,22 @@ theorem errs_post_decodeAllPlanes (solve : WSolver W) (d : XCubeDec W) (b : Buil
 
 /-! ### the loops -/
 
-theorem errs_loopsAll (d : XCubeDec W) (g : Geom d) (hxy : d.Lx ≤ d.Ly) (hyz : d.Ly ≤ d.Lz)
+theorem errs_loopsAll (d : XCubeDec W) (hok : PlaneKeysOk d) (hsz : ∀ proj, 1 ≤ (d.planeSizes proj).2)
     (proj : Axis) (comps : List (List Int))
     (hcomps : ∀ comp ∈ comps, Lat3Db.R1 (2 * d.side proj) (comp.headD 0))
     (ortho : List Coord) (hortho : ∀ c ∈ ortho, NonNegC c) (pc : Vec) :
     Errs (loopsAll d proj comps ortho pc) NoKeyError := by
-  have hok := (loopKeysOk_iff d.Lx d.Ly d.Lz g.hx g.hy g.hz).mpr ⟨hxy, hyz⟩
   unfold loopsAll
   refine errs_forM' (fun _ => True) ?_ pc trivial
   intro st comp hcomp _
   refine ⟨?_, post_true _⟩
   simp only
   refine errs_bind (errs_note _ _) fun _ _ => ?_
-  refine errs_bind (errs_decodePlane _ (toricLoop_nonneg ortho comp _ hortho) d.Lx d.Ly g.hy)
+  refine errs_bind (errs_decodePlane _ (toricLoop_nonneg ortho comp _ hortho) _ _ (hsz proj))
     fun coords hcoords => ?_
   refine errs_bind (errs_note _ _) fun _ _ => ?_
-  exact errs_false_noKey (errs_loopScatter_ascending d g.qubits hok proj _ (hcomps comp hcomp) coords
-    (post_decodePlane _ d.Lx d.Ly coords hcoords) st)
+  exact errs_false_noKey (errs_loopScatter_of_keys d hok proj _ (hcomps comp hcomp) coords
+    (post_decodePlane _ _ _ coords hcoords) st)
 
 /-! ### one projection axis, and the whole matching part -/
 
@@ -225,12 +228,13 @@ theorem head_mem_of_ne_nil : ∀ (l : List Int), l ≠ [] → l.headD 0 ∈ l
 
 theorem errs_post_projIter (solve : WSolver W) (order : List Int → List Int)
     (horder : ∀ l x, x ∈ order l ↔ x ∈ l) (d : XCubeDec W) (b : Built d)
-    (hx : 2 ≤ d.Lx) (hxy : d.Lx ≤ d.Ly) (hyz : d.Ly ≤ d.Lz) (s : Vec)
+    (hx : 2 ≤ d.Lx) (hy : 2 ≤ d.Ly) (hz : 2 ≤ d.Lz) (hok : PlaneKeysOk d)
+    (hsz : ∀ proj, 1 ≤ (d.planeSizes proj).2) (s : Vec)
     (st : Per (PlaneDict Vec) × Per Vec) (hst : PsInv d st.1) (proj : Axis) :
     Errs (projIter solve order d (maskX d.H s) st proj) NoKeyError ∧
     Post (projIter solve order d (maskX d.H s) st proj) (fun r => PsInv d r.1) := by
   have g := b.geom
-  obtain ⟨hs1, hs2⟩ := errs_post_slicePlanes d g hx (by omega) (by omega) b.H s st.1 hst
+  obtain ⟨hs1, hs2⟩ := errs_post_slicePlanes d g hx hy hz b.H s st.1 hst
   -- what holds after each stage
   have hcp0 : ∀ ps, PsInv d ps → CpInv d proj ((ps.get proj).map fun e => (e.1, ([] : List Int))) := by
     intro ps hps
@@ -266,7 +270,7 @@ theorem errs_post_projIter (solve : WSolver W) (order : List Int → List Int)
     refine errs_bind (errs_note _ _) fun _ _ => ?_
     refine errs_bind (errs_false_noKey (errs_projectAll d g proj comps
       (fun comp hcomp => (hhead comp hcomp).1) _ (hr'.1 proj) _)) fun pc1 _ => ?_
-    refine errs_bind (errs_loopsAll d g hxy hyz proj comps hhead _ ?_ pc1) (fun _ _ => errs_pure)
+    refine errs_bind (errs_loopsAll d hok hsz proj comps hhead _ ?_ pc1) (fun _ _ => errs_pure)
     intro c hc
     rw [List.mem_eraseDups] at hc
     rcases List.mem_append.mp hc with h | h
@@ -284,12 +288,13 @@ theorem errs_post_projIter (solve : WSolver W) (order : List Int → List Int)
     refine post_bind (post_true _) fun pc2 _ => ?_
     exact post_pure hps
 
-/-- **No `KeyError` on ascending lattices.**  Decoder object of an undeformed `XCubeCode` with
-    `2 ≤ Lx ≤ Ly ≤ Lz`, any syndrome vector (any length, any entries), any PyMatching answers, any
+/-- **No `KeyError` when the loop-scatter keys exist.**  Decoder object of an undeformed `XCubeCode`
+    with all sides ≥ 2, any syndrome vector (any length, any entries), any PyMatching answers, any
     `list(set)` order that keeps the elements: the matching part of `decode` raises no `KeyError`. -/
 theorem errs_matchingPart (solve : WSolver W) (order : List Int → List Int)
     (horder : ∀ l x, x ∈ order l ↔ x ∈ l) (d : XCubeDec W) (b : Built d)
-    (hx : 2 ≤ d.Lx) (hxy : d.Lx ≤ d.Ly) (hyz : d.Ly ≤ d.Lz) (s : Vec) :
+    (hx : 2 ≤ d.Lx) (hy : 2 ≤ d.Ly) (hz : 2 ≤ d.Lz) (hok : PlaneKeysOk d)
+    (hsz : ∀ proj, 1 ≤ (d.planeSizes proj).2) (s : Vec) :
     Errs (matchingPart solve order d s) NoKeyError := by
   unfold matchingPart
   simp only
@@ -298,7 +303,7 @@ theorem errs_matchingPart (solve : WSolver W) (order : List Int → List Int)
   · refine errs_bind ?_ fun st _ => errs_bind (errs_note _ _) (fun _ _ => errs_pure)
     refine errs_forM' (fun (st : Per (PlaneDict Vec) × Per Vec) => PsInv d st.1) ?_ _ (psInv_empty d)
     intro st proj _ hst
-    exact errs_post_projIter solve order horder d b hx hxy hyz s st hst proj
+    exact errs_post_projIter solve order horder d b hx hy hz hok hsz s st hst proj
 
 /-! ### the order the driver uses keeps the elements -/
 
